@@ -218,6 +218,82 @@ def evaluate(expr, env):
     return ev.ev(expr), ev
 
 
+def evaluate_exact(e, env):
+    """
+    Value of ``e`` over the rationals: every division is exact (no truncation), reals are the exact binary
+    fractions of their double values.  Used only to *classify* a value change: a rewriting step that preserves
+    this value but not the Fortran value is algebraically valid and wrong only because of integer division / a
+    lost real type; a step that changes this value too is an algebra error.  Non-integral exponents fall back
+    to floating point.  Returns Fraction or bool; raises Undefined.
+    """
+    from fractions import Fraction
+    envl = {k.lower(): v for k, v in env.items()}
+
+    def num(v):
+        if isinstance(v, bool):
+            raise Undefined('logical operand in arithmetic')
+        return v
+
+    def ev(x):  # pylint: disable=too-many-return-statements,too-many-branches
+        if isinstance(x, bool):
+            return x
+        if isinstance(x, (int, float)):
+            return Fraction(x)
+        if isinstance(x, sym.IntLiteral):
+            return Fraction(int(x.value))
+        if isinstance(x, sym.FloatLiteral):
+            return Fraction(parse_float(x.value))
+        if isinstance(x, sym.LogicLiteral):
+            return bool(x.value)
+        if isinstance(x, pmbl.Sum):
+            return sum((num(ev(c)) for c in x.children), Fraction(0))
+        if isinstance(x, pmbl.Product):
+            acc = Fraction(1)
+            for c in x.children:
+                acc *= num(ev(c))
+            return acc
+        if isinstance(x, pmbl.Quotient):
+            d = num(ev(x.denominator))
+            if d == 0:
+                raise Undefined('zero divisor')
+            return num(ev(x.numerator)) / d
+        if isinstance(x, pmbl.Power):
+            b, p = num(ev(x.base)), num(ev(x.exponent))
+            if p.denominator == 1:
+                if b == 0 and p <= 0:
+                    raise Undefined('0**(<=0)')
+                if abs(p) > 64:
+                    raise Undefined('huge exponent')
+                return b ** int(p)
+            if b <= 0:
+                raise Undefined('non-positive base with real exponent')
+            return Fraction(float(b) ** float(p))
+        if isinstance(x, pmbl.Comparison):
+            return _CMP[str(x.operator).lower()](num(ev(x.left)), num(ev(x.right)))
+        if isinstance(x, pmbl.LogicalAnd):
+            return all([bool(ev(c)) for c in x.children])
+        if isinstance(x, pmbl.LogicalOr):
+            return any([bool(ev(c)) for c in x.children])
+        if isinstance(x, pmbl.LogicalNot):
+            return not ev(x.child)
+        if isinstance(x, _VARCLS):
+            if getattr(x, 'dimensions', None) or x.name.lower() not in envl:
+                raise Undefined('unbound variable')
+            return Fraction(envl[x.name.lower()])
+        raise Undefined(f'unsupported node {type(x).__name__}')
+
+    try:
+        return ev(e)
+    except (OverflowError, ZeroDivisionError) as exc:
+        raise Undefined(str(exc)) from exc
+
+
+def exact_agree(a, b, rtol=1e-9):
+    if isinstance(a, bool) or isinstance(b, bool):
+        return a is b
+    return abs(a - b) <= rtol * max(1, abs(a), abs(b))
+
+
 def kind_of(v):
     return 'logical' if isinstance(v, bool) else ('integer' if isinstance(v, int) else 'real')
 
